@@ -43,7 +43,7 @@ fn rates() -> Vec<f32> {
 fn flips(seed: u64, shard: usize, rounds: usize, rep: &mut Report) {
     for r in 0..rounds {
         let mut g = Xo::derive(seed, "C11-flip", (shard * 1_000_003 + r) as u64);
-        let len = g.usize_below(41);
+        let len = if g.chance(1, 60) { *g.pick(&[63usize, 64, 65, 100, 127, 128, 129, 255, 256, 257, 1000, 1024, 1025, 4097]) } else { g.usize_below(41) };
         let rate = if g.chance(1, 3) { g.f64() as f32 } else { *g.pick(&rates()) };
         let bits: Vec<bool> = (0..len).map(|_| g.chance(1, 2)).collect();
         let flags: Vec<Flag> = (0..len as u32).map(|pos| Flag { pos, flipped: false }).collect();
@@ -262,7 +262,7 @@ fn check_umad_child(child: &[UGene], len: usize, handed_out: u32, first_serial: 
 }
 
 fn umad_round(g: &mut Xo, rep: &mut Report) {
-    let len = if g.chance(1, 5) { 0 } else { g.usize_below(41) };
+    let len = if g.chance(1, 5) { 0 } else if g.chance(1, 60) { *g.pick(&[63usize, 64, 65, 100, 127, 128, 129, 255, 256, 257, 1000, 1024, 1025, 4097]) } else { g.usize_below(41) };
     let grid = [0.0f64, 1e-3, 0.1, 0.3, 0.5, 0.9, 1.0];
     let pick = |g: &mut Xo| if g.chance(1, 3) { g.f64() } else { *g.pick(&grid) };
     let ctor = g.below(3) as u8;
@@ -377,7 +377,7 @@ pub fn run(args: &Args) -> i32 {
     rep.finish(
         args,
         "exploration",
-        "genomes of length 0..40 x rates from the grid {0, 1e-3, .1, .3, .5, .9, 1, (1.5 for flips)} and random rates x independent seeded streams; bit-flip on Vec<bool>, Bitstring and a custom Not gene, UMAD through all three constructors on Vector<tagged gene> and Plushy. distinct_nontrivial = distinct (mutator configuration, genome length[, stream class])",
+        "genomes of length 0..40 (every 60th: 63..4097, around word and block boundaries) x rates from the grid {0, 1e-3, .1, .3, .5, .9, 1, (1.5 for flips)} and random rates x independent seeded streams; bit-flip on Vec<bool>, Bitstring and a custom Not gene, UMAD through all three constructors on Vector<tagged gene> and Plushy. distinct_nontrivial = distinct (mutator configuration, genome length[, stream class])",
         false,
         &[
             "fresh genes come from a serial-number generator, so 'drawn from the supplied generator during this call, at most once' is decided by set membership",
